@@ -166,9 +166,11 @@ int tbl_write_path(const hist_t* h, const char* path, carquet_status_t* st, cons
 
 /* ---- general executor with abort point ------------------------------------------------ */
 typedef struct { carquet_writer_t* w; const hist_t* h; int stop_after; tbl_result* r; } exec_t;
+static carquet_status_t op_write(exec_t* e, int c, int a, int b);
 static bool step(exec_t* e, const char* where, carquet_status_t (*fn)(exec_t*, int, int, int), int a, int b, int c) {
     if (e->stop_after >= 0 && e->r->nops == e->stop_after) { carquet_writer_abort(e->w); e->w = NULL; e->r->aborted = true; return false; }
     carquet_status_t st = fn(e, a, b, c); e->r->nops++;
+    if (st != CARQUET_OK && fn == op_write) e->r->refused_batches++;
     if (st != CARQUET_OK && e->r->status == CARQUET_OK) { e->r->status = st; e->r->where = where; e->r->failed_op = e->r->nops - 1; }
     return true;
 }
